@@ -93,7 +93,12 @@ def validate_tjp_file(tjp_path: str) -> Path:
     if path.suffix != ".tjp":
         logger.warning("File does not have .tjp extension: %s", tjp_path)
 
-    if not path.stat().st_size:
+    # Empty means the same as for stdin: nothing but white space
+    try:
+        blank = not path.stat().st_size or not path.read_bytes().strip()
+    except OSError as e:
+        raise FileNotFoundError(f"Cannot read file: {tjp_path} ({e})") from e
+    if blank:
         raise FileNotFoundError(f"File is empty: {tjp_path}")
 
     return path
